@@ -160,3 +160,55 @@ func c09ArgCase(w *mon.Worker, r *rand.Rand) mon.Result {
 	res.Verdict, res.Detail = mon.Held, "same results"
 	return res
 }
+
+// c09UnionChainCase: a chain of one associative operator means the same in every grouping. Union chains whose operands
+// mention the context itself (`.`) or a variable more than once are the ones where an implementation that re-uses a
+// result list instead of copying it shows: `(., .a), .` ≡ `., (.a, .)` ≡ `., .a, .`.
+func c09UnionChainCase(w *mon.Worker, r *rand.Rand) mon.Result {
+	doc := "{\"a\": 1, \"b\": [2, 3], \"c\": {\"d\": 4}}\n"
+	ops := []string{".", ".a", ".b", ".c.d", "$x", ".", "$x", ".b[0]", "1"}
+	n := 3 + r.IntN(2)
+	xs := make([]string, n)
+	for i := range xs {
+		xs[i] = ops[r.IntN(len(ops))]
+		for i > 0 && xs[i] == xs[i-1] {
+			// (two adjacent mentions of the very same node in one bracket collapse into one: the recorded `(., .)`
+			// deviation of C01, kept out of this family)
+			xs[i] = ops[r.IntN(len(ops))]
+		}
+	}
+	flat := "(" + strings.Join(xs, ", ") + ")"
+	left := "(" + xs[0] + ", " + xs[1] + ")"
+	for _, x := range xs[2:] {
+		left = "(" + left + ", " + x + ")"
+	}
+	right := "(" + xs[n-2] + ", " + xs[n-1] + ")"
+	for i := n - 3; i >= 0; i-- {
+		right = "(" + xs[i] + ", " + right + ")"
+	}
+	wrap := []string{".c as $x | [%s]", ".a as $x | %s | tag", ".c as $x | [%s] | length", ".b as $x | [%s | kind]"}[r.IntN(4)]
+	res := mon.Result{Tags: []string{"family:union-chain"}, Nontrivial: true}
+	exprs := []string{fmt.Sprintf(wrap, flat), fmt.Sprintf(wrap, left), fmt.Sprintf(wrap, right)}
+	res.Case = map[string]any{"flat": exprs[0], "left_grouped": exprs[1], "right_grouped": exprs[2], "doc": doc}
+	res.Sig = "unionchain|" + exprs[0]
+	var outs []string
+	for _, e := range exprs {
+		o, err, pan := yqx.Eval(e, doc, "yaml", "json")
+		res.Evals++
+		if pan != nil {
+			res.Verdict, res.Detail = mon.Violated, fmt.Sprintf("panic while evaluating `%s`: %v", e, pan)
+			return res
+		}
+		if err != nil {
+			o = "error"
+		}
+		outs = append(outs, o)
+	}
+	if outs[0] != outs[1] || outs[0] != outs[2] {
+		res.Verdict = mon.Violated
+		res.Detail = fmt.Sprintf("the groupings of one union chain differ\n `%s` -> %s\n `%s` -> %s\n `%s` -> %s", exprs[0], clipStr(outs[0], 300), exprs[1], clipStr(outs[1], 300), exprs[2], clipStr(outs[2], 300))
+		return res
+	}
+	res.Verdict, res.Detail = mon.Held, "same results in every grouping"
+	return res
+}
